@@ -3,7 +3,7 @@ PROP = {'assumptions': ['Redis PTTL replies are canonical decimal i64 (-2 missin
                  "RESTORE reads ttl 0 as 'no expiry'",
                  'btoi 0.4.2 grammar as transliterated in UmModel/Bytes.lean (differentially checked on '
                  'every run)'],
- 'gaps': ['the scan loop (produce_entries on SCAN batches) is exercised through the UMSYNC path which shares produce_entries/forward_entries; key expiry firing during a migration is outside the model'],
+ 'gaps': ['the scan loop (produce_entries on SCAN batches) is exercised through the UMSYNC path which shares produce_entries/forward_entries; key expiry firing between the two pipelined commands and before the RESTORE is inside the Lean model (C19_scan_move / C19_pull_move, clock advancing between PTTL, DUMP and RESTORE) but the Redis servers there are the assumed command semantics, not a real Redis'],
  'gen_modules': ['Consts'],
  'module': 'UmProps.C19',
  'streams': [{'driver': 'ttl', 'harness': 'umh_ttl', 'name': 'ttl'}]}
@@ -14,7 +14,7 @@ CHECK = {'design_ref': '§6 C19',
  'technique': 'Lean 4 theorems over all i64 PTTL values on both transfer-path models + differential correspondence (real function, real UMSYNC path, real pull path vs model)',
  'text': 'Proved for all PTTL replies n in [0, i64::MAX], -1 and -2 and every payload, on both transfer-path '
          'models (scan/UMSYNC and pull): RESTORE ttl t satisfies 1 <= t <= max(n,1); persistent stays '
-         'persistent; missing keys are not restored. The model is tied to the code by generated constants '
+         'persistent; missing keys are not restored. End to end (C19_scan_move, C19_pull_move): for every key record (data, absolute expiry or none), every timing t1 <= t2 <= t3 of the two reads and the RESTORE (the key may expire in between), the destination holds nothing, or the same data persistent iff the source was persistent, or the same data with an expiry e2 with t3 < e2 <= e + (t3 - tRead); a key still alive at the second read does arrive. The model is tied to the code by generated constants '
          'and by running, every run, three real code paths against the Lean model on boundary/structured/random replies: '
          'pttl_to_restore_expire_time itself, the UMSYNC push path (ScanMigrationTask::handle_sync_task -> produce_entries -> '
          'forward_entries with a scripted Redis stand-in recording the RESTORE that reaches the destination) and the pull path '
